@@ -12,7 +12,7 @@ import sys, os, subprocess, shutil, tempfile, glob, json
 from concurrent.futures import ThreadPoolExecutor
 
 HERE = os.path.dirname(os.path.dirname(os.path.abspath(__file__)))
-PROPS = ['C%02d' % i for i in range(1, 21)]
+PROPS = os.environ['LPV_PROPS'].split(',') if os.environ.get('LPV_PROPS') else ['C%02d' % i for i in range(1, 21)]   # LPV_PROPS=C11,C14: only these checks
 
 
 def one(patch):
